@@ -56,7 +56,7 @@ func init() {
 		Cfg:        dsim.Config{MaxChaosSteps: 140, MaxStableSteps: 4000, Horizon: 5 * time.Second},
 		Real:       []string{"pubsub/floodsub.FloodSub (AddPeerStream, Execute, stream handler read pump, handlePublish, handleValidMessage, execPublish, subscriptions)", "pubsub/util/pubmessage.ExtractAndVerify", "peer.SignedMsg verification", "stream/packet.Session framing"},
 		Stub:       []string{"peers are scripted (one honest downstream, one malicious); streams are simulator-owned byte streams with chunked delivery", "go-cache janitor goroutine not started"},
-		FaultKinds: []string{"fault:bare-context", "fault:prefix-channel-context", "fault:subscribe-then-release-at-once", "fault:tampered-data", "fault:retargeted-channel", "fault:foreign-signature", "fault:embedded-pubkey", "fault:same-signature-new-data", "fault:wrong-context", "fault:cross-channel-context", "fault:empty-channel", "fault:unsubscribed-channel", "fault:corrupt-frame", "fault:chunking", "fault:clock-jump"},
+		FaultKinds: []string{"fault:bare-context", "fault:batch-invalid-then-valid", "fault:prefix-channel-context", "fault:subscribe-then-release-at-once", "fault:tampered-data", "fault:retargeted-channel", "fault:foreign-signature", "fault:embedded-pubkey", "fault:same-signature-new-data", "fault:wrong-context", "fault:cross-channel-context", "fault:empty-channel", "fault:unsubscribed-channel", "fault:corrupt-frame", "fault:chunking", "fault:clock-jump"},
 	})
 }
 
@@ -151,7 +151,7 @@ func (w *c27World) honest(from *sig.Party, ch string) *peer.SignedMsg {
 	return sm
 }
 
-var c27Kinds = []string{"honest", "honest", "relayed-honest", "tampered-data", "retargeted-channel", "foreign-signature", "embedded-pubkey", "same-signature-new-data", "wrong-context", "cross-channel-context", "empty-channel", "bare-context", "prefix-channel-context", "unsubscribed-channel", "corrupt-frame"}
+var c27Kinds = []string{"honest", "honest", "relayed-honest", "tampered-data", "retargeted-channel", "foreign-signature", "embedded-pubkey", "same-signature-new-data", "wrong-context", "cross-channel-context", "empty-channel", "batch-invalid-then-valid", "bare-context", "prefix-channel-context", "unsubscribed-channel", "corrupt-frame"}
 
 func (w *c27World) inject(kind string) {
 	s := w.s
@@ -245,6 +245,17 @@ func (w *c27World) inject(kind string) {
 		w.pool[key("P", "chZ", data)] = true
 		w.injAt[data] = s.Now()
 		sm = sm2
+	case "batch-invalid-then-valid":
+		// one packet carrying a tampered message followed by a genuine one
+		bad := w.honest(P, ch)
+		inner := &pubmessage.PubMessageInner{}
+		_ = inner.UnmarshalVT(bad.Data)
+		inner.Data = []byte(tag)
+		bad.Data, _ = inner.MarshalVT()
+		good := w.honest(M, ch)
+		s.Logf("M injects %s", kind)
+		w.m.Send(&floodsub.Packet{Publish: []*peer.SignedMsg{bad, good}})
+		return
 	case "corrupt-frame":
 		sm = w.honest(P, ch)
 		fr := fsub.Frame(&floodsub.Packet{Publish: []*peer.SignedMsg{sm}})
